@@ -121,6 +121,20 @@ CHECKS = {
         'technique': 'TLA+ design model (PluginChain) exhaustively checked + TLC-generated programs executed on the real plugin chain + '
                      'TLC trace validation (TraceChain) of the recorded hook-call logs',
     },
+    'C13': {
+        'text': 'Reference path resolution in TLA+ (StaticPath.tla: query stripped at the first ?, dot-segment stack machine, no '
+                'percent-decoding). Every path of up to 3 (quick) / 4 (thorough, sampled) segments over {file and directory names, ., .., '
+                'empty, %2e%2e, ..%2f, a sibling directory carrying the root name as prefix} x query variants (incl. queries containing '
+                '? and /../) x trailing slash is requested through the REAL handler + HttpWebServerPlugin against a real tree on disk '
+                'with files inside, in sub-directories and just outside the root; gzip undone when advertised. TLC (TraceStatic) decides: '
+                'outside => 404; 200 => content = the file the resolved path names (never an outside file), decodable; plain existing '
+                'files are served whatever the query.',
+        'design_ref': 'DESIGN.md section 6, C13',
+        'note': 'Trusted: TLC, SimNet, CPython zlib, the file system. Symbolic links and paths re-entering through the root\'s own name '
+                'are not generated.',
+        'technique': 'TLA+ reference path resolution (StaticPath) + TLC validation (TraceStatic) of recorded static-server responses over an '
+                     'enumerated path space',
+    },
     'C14': {
         'text': 'Reference request-target parser in TLA+ (Target.tla: origin / absolute / authority form, reg-names, IPv4, bracketed IPv6, '
                 'explicit / default ports, userinfo), independent of proxy/http/url.py. Targets generated from components (host '
